@@ -33,6 +33,9 @@ type faCase struct {
 	patch string
 	minus string // instance template (whole file)
 	plus  string // expected result template (whole file); "" = not checked
+
+	idents      []string // metavariables declared 'identifier'
+	nonInstance bool     // the template is deliberately NOT an instance (kind or shape mismatch): pick the innermost node spanning the site
 }
 
 type faHole struct {
@@ -127,6 +130,7 @@ type faWalker struct {
 	holes  []faHole
 	leaves []*faLeaf
 	ords   map[int]int
+	roots  map[int]reflect.Value // outermost node of each hole
 }
 
 func (w *faWalker) holeOf(n ast.Node, cur int) int {
@@ -167,7 +171,13 @@ func (w *faWalker) walk(v reflect.Value, hole int, path string) {
 			return
 		}
 		if v.Type().Implements(faNodeType) {
+			was := hole
 			hole = w.holeOf(v.Interface().(ast.Node), hole)
+			if was < 0 && hole >= 0 && w.roots != nil {
+				if _, dup := w.roots[hole]; !dup {
+					w.roots[hole] = v
+				}
+			}
 		}
 		w.walk(v.Elem(), hole, path)
 	case reflect.Slice:
@@ -313,8 +323,19 @@ func faSymbolise(leaves []*faLeaf) {
 }
 
 // faWant is the term "the symbolised site is an instance of the pattern".
-func faWant(leaves []*faLeaf, holes []faHole) bool {
+func faWant(leaves []*faLeaf, holes []faHole, roots map[int]reflect.Value, idents []string) bool {
 	want := true
+	for k, h := range holes {
+		root, ok := roots[k]
+		if !ok {
+			continue
+		}
+		for _, id := range idents {
+			if id == h.name && root.Type() != reflect.TypeOf((*ast.Ident)(nil)) {
+				return false // an identifier metavariable stands for a single identifier only
+			}
+		}
+	}
 	for _, l := range leaves {
 		if l.hole < 0 {
 			want = nd.And(want, l.eq)
@@ -340,12 +361,70 @@ func faWant(leaves []*faLeaf, holes []faHole) bool {
 			if len(other) != len(first) {
 				return false
 			}
+			if ra, ok := roots[occ[0]]; ok {
+				if rb, ok := roots[o]; ok && !faSameShape(ra, rb) {
+					return false
+				}
+			}
 			for i := range first {
 				want = nd.And(want, faLeafEq(first[i], other[i]))
 			}
 		}
 	}
 	return want
+}
+
+// faSameShape compares two subtrees structurally, ignoring every leaf value.
+func faSameShape(a, b reflect.Value) bool {
+	if a.Kind() == reflect.Interface || b.Kind() == reflect.Interface {
+		if a.Kind() == reflect.Interface {
+			if a.IsNil() {
+				return (b.Kind() == reflect.Interface || b.Kind() == reflect.Ptr) && b.IsNil()
+			}
+			a = a.Elem()
+		}
+		if b.Kind() == reflect.Interface {
+			if b.IsNil() {
+				return a.Kind() == reflect.Ptr && a.IsNil()
+			}
+			b = b.Elem()
+		}
+	}
+	if a.Type() != b.Type() {
+		return false
+	}
+	switch a.Kind() {
+	case reflect.Ptr:
+		switch a.Type() {
+		case faObjType, faScopeType, faCGType:
+			return true
+		}
+		if a.IsNil() || b.IsNil() {
+			return a.IsNil() == b.IsNil()
+		}
+		return faSameShape(a.Elem(), b.Elem())
+	case reflect.Slice:
+		if a.Len() != b.Len() {
+			return false
+		}
+		for i := 0; i < a.Len(); i++ {
+			if !faSameShape(a.Index(i), b.Index(i)) {
+				return false
+			}
+		}
+	case reflect.Struct:
+		for i := 0; i < a.NumField(); i++ {
+			if a.Field(i).Type() == faPosType {
+				continue
+			}
+			if !faSameShape(a.Field(i), b.Field(i)) {
+				return false
+			}
+		}
+	case reflect.Bool:
+		return a.Bool() == b.Bool()
+	}
+	return true
 }
 
 func faHoleLeaves(leaves []*faLeaf, hole int) (out []*faLeaf) {
@@ -404,8 +483,11 @@ func faFind(f *ast.File, base int, s faSite, accept func(ast.Node) bool) *faLoc 
 	// several nodes can span exactly the same text (DeclStmt/GenDecl,
 	// ExprStmt/CallExpr) and a statement pattern matches the enclosing
 	// block: take the first candidate the caller accepts.
+	if accept == nil && len(exact) > 0 {
+		found = &faLoc{node: exact[len(exact)-1]} // innermost
+	}
 	for _, n := range exact {
-		if accept == nil || accept(n) {
+		if found == nil && accept != nil && accept(n) {
 			found = &faLoc{node: n}
 			break
 		}
@@ -570,6 +652,7 @@ type faRun struct {
 	want    []bool      // per site
 	fillers []map[string]string
 	src     string
+	rest    []*faLeaf // leaves outside all sites (symbolised by symboliseRest)
 }
 
 func faPrepare(c faCase) *faRun {
@@ -591,6 +674,11 @@ func faPrepare(c faCase) *faRun {
 	m := r.prog.Changes[0].matcher.NodeMatcher
 	for _, s := range r.sites {
 		// the catalogue instance must be an instance: the concrete match selects the node
+		if c.nonInstance {
+			// deliberately not an instance: the innermost node spanning the site
+			r.locs = append(r.locs, faFind(r.file, r.base, s, nil))
+			continue
+		}
 		r.locs = append(r.locs, faFind(r.file, r.base, s, func(n ast.Node) bool {
 			_, ok := m.Match(reflect.ValueOf(n), data.New(), nodeRegion(n))
 			return ok
@@ -605,7 +693,7 @@ func (r *faRun) symboliseSite(k int) {
 		r.leaves = append(r.leaves, nil)
 		r.want = append(r.want, true)
 	}
-	w := &faWalker{base: r.base, holes: r.holes, ords: map[int]int{}}
+	w := &faWalker{base: r.base, holes: r.holes, ords: map[int]int{}, roots: map[int]reflect.Value{}}
 	loc := r.locs[k]
 	if loc.stmts {
 		var list []ast.Stmt
@@ -630,7 +718,7 @@ func (r *faRun) symboliseSite(k int) {
 	r.leaves[k] = w.leaves
 	var hs []faHole
 	hs = append(hs, r.holes...)
-	r.want[k] = faWant(w.leaves, hs)
+	r.want[k] = faWant(w.leaves, hs, w.roots, r.c.idents)
 }
 
 // expected builds the AST the '+' template prescribes for site k, with the
@@ -774,13 +862,14 @@ func (r *faRun) nearMiss(k, sel int) (applied bool, count int) {
 // expectedFile parses the '+' template of the whole file and substitutes the
 // symbolic leaves of the captured code into every «x» occurrence.
 func (r *faRun) expectedFile() *ast.File {
-	src, holes, _, _ := faStrip(r.c.plus, r.fillers)
+	src, holes, psites, _ := faStrip(r.c.plus, r.fillers)
 	fset := token.NewFileSet()
 	f, err := parser.ParseFile(fset, "b.go", src, parser.ParseComments)
 	if err != nil {
 		panic("harness: expected-result template does not parse: " + r.c.name + ": " + err.Error())
 	}
 	base := fset.File(f.Pos()).Base()
+	r.applyRest(f, base, psites)
 	w := &faWalker{base: base, holes: holes, ords: map[int]int{}}
 	w.walk(reflect.ValueOf(f), -1, "exp")
 	for _, l := range w.leaves {
@@ -813,4 +902,81 @@ func (r *faRun) expectedFile() *ast.File {
 		}
 	}
 	return f
+}
+
+// ---- symbolising the code AROUND the sites (C05) ----
+
+// restLeaves collects, in DFS order, the leaves of the file that lie outside every site.
+func faRestLeaves(f *ast.File, base int, sites []faSite) []*faLeaf {
+	w := &faWalker{base: base, ords: map[int]int{}}
+	for k, s := range sites {
+		w.holes = append(w.holes, faHole{name: fmt.Sprintf("site%d", k), lo: s.lo, hi: s.hi, site: k})
+	}
+	w.walk(reflect.ValueOf(f), -1, "file")
+	var out []*faLeaf
+	for _, l := range w.leaves {
+		if l.hole < 0 {
+			out = append(out, l)
+		}
+	}
+	return out
+}
+
+// symboliseRest makes identifier tails and literal bytes of all code outside
+// the sites symbolic (the first byte of a name stays, so surrounding code
+// cannot turn into another instance of the pattern).
+func (r *faRun) symboliseRest() {
+	r.rest = faRestLeaves(r.file, r.base, r.sites)
+	for k, l := range r.rest {
+		tag := fmt.Sprintf("rest%d", k)
+		switch l.kind {
+		case faIdent:
+			o := l.orig.String()
+			if len(o) < 2 || o == "_" {
+				l.symS = o
+				continue
+			}
+			t := nd.Str(tag, len(o)-1)
+			for i := 0; i < len(t); i++ {
+				nd.Assume(nd.Or(faIsLetter(t[i]), nd.And(t[i] >= '0', t[i] <= '9')))
+			}
+			l.symS = o[:1] + t
+			l.addr.SetString(l.symS)
+		case faLit:
+			o := l.orig.String()
+			if len(o) < 3 || (o[0] != '"' && o[0] != '`') {
+				l.symS = o
+				continue
+			}
+			t := nd.Str(tag, len(o)-2)
+			for i := 0; i < len(t); i++ {
+				nd.Assume(nd.And(t[i] >= 'a', t[i] <= 'z'))
+			}
+			l.symS = o[:1] + t + o[len(o)-1:]
+			l.addr.SetString(l.symS)
+		default:
+			l.symI = int(l.orig.Int())
+		}
+	}
+}
+
+// applyRest gives the code outside the sites of an expected file the same symbolic leaves.
+func (r *faRun) applyRest(f *ast.File, base int, sites []faSite) {
+	if r.rest == nil {
+		return
+	}
+	exp := faRestLeaves(f, base, sites)
+	if len(exp) != len(r.rest) {
+		panic(fmt.Sprintf("harness: surrounding code differs between the templates of %s (%d vs %d leaves)", r.c.name, len(exp), len(r.rest)))
+	}
+	for i, l := range exp {
+		m := r.rest[i]
+		if l.kind != m.kind {
+			panic("harness: surrounding code differs between the templates of " + r.c.name)
+		}
+		switch l.kind {
+		case faIdent, faLit:
+			l.addr.SetString(m.symS)
+		}
+	}
 }
